@@ -150,7 +150,7 @@ of the converted model. -/
 theorem states_qubo (cfg : Cfg ρ α) (Q : Obj) (P : Params ρ α) (bs : List Res)
     (h : annealQubo cfg Q P = .ok bs) :
     ∀ b ∈ bs, b.spin = false ∧ (∀ p ∈ b.state, p.2 = 0 ∨ p.2 = 1) ∧
-      ∃ L N model rev, quboToQuso Q = .ok L ∧ dispatchQuso L = .ok (N, model, rev) ∧
+      ∃ L N model rev, Anneal.quboToQuso Q = .ok L ∧ dispatchQuso L = .ok (N, model, rev) ∧
         b.state.map Prod.fst = (List.range N).map (fun k => rev.getD k 0) := by
   unfold annealQubo at h
   simp only [bind_ok_iff] at h
@@ -164,7 +164,7 @@ theorem states_qubo (cfg : Cfg ρ α) (Q : Obj) (P : Params ρ α) (bs : List Re
 theorem states_pubo (cfg : Cfg ρ α) (Pm : Obj) (P : Params ρ α) (bs : List Res)
     (h : annealPubo cfg Pm P = .ok bs) :
     ∀ b ∈ bs, b.spin = false ∧ (∀ p ∈ b.state, p.2 = 0 ∨ p.2 = 1) ∧
-      ∃ H N model rev, puboToPuso Pm = .ok H ∧ dispatchPuso H = .ok (N, model, rev) ∧
+      ∃ H N model rev, Anneal.puboToPuso Pm = .ok H ∧ dispatchPuso H = .ok (N, model, rev) ∧
         b.state.map Prod.fst = (List.range N).map (fun k => rev.getD k 0) := by
   unfold annealPubo at h
   simp only [bind_ok_iff] at h
